@@ -219,7 +219,9 @@ ErrorsChangeNothing == [][ret' = "ValueError" /\ ~InFrame => UNCHANGED <<aq, wh,
 PromiseHoldsReturn == \A g \in Ids : (pc[g] = Len(Script[g]) + 2 /\ gens[g] = "none" /\ pval[g] # 0) => pval[g] = RetVal(g)
 \* released in time: after a frame nothing runnable is still marked for killing, and whatever the processor
 \* still holds is running, waiting, or a killed waiter whose wake-up frame has not come yet
-ReleasedInTime == [][InFrame => \A g \in (kq' \cap kq) \ touched' : gens'[g] = "waiting"]_vars
+\* (a frame abandoned by an exception escaping a body did not reach the coroutines behind the culprit: they are
+\* met - and released - by the next frame, the first one in which they would have run)
+ReleasedInTime == [][(InFrame /\ ret' = "ok") => \A g \in (kq' \cap kq) \ touched' : gens'[g] = "waiting"]_vars
 
 \* C08
 \* waiters (not killed) wake exactly in the first frame by which the dt accumulated since their yield reaches the wait
